@@ -36,6 +36,15 @@ sc3):
                 by an independent interpreter under two assignments of numbers
                 to the parameters, so every EnvGen / IEnvGen input must
                 evaluate to the model encoding under the same assignment.
+* re-use        'reuse' shards (vf/c19_reuse.py): one Env object (from Env(...)
+                or a standard constructor) through a history of uses, public
+                changes (duration setter, range / exprange / curverange, copy,
+                attribute assignment) and RE-SPECIFICATIONS that change the
+                segment count by assigning new levels / times / curves / nodes
+                in every order; expected arrays are the model's encoding of the
+                ASSIGNED values and a fresh Env built from them; intermediate
+                objects are used only when consistent (one duration per
+                segment); the originals of copies are re-checked at the end.
 """
 
 import copy
@@ -64,7 +73,16 @@ RULE = ("seeded random envelope specifications: 2-12 levels (any sign / positive
         "SynthDef graph function with EnvGen.kr/ar (Env object or its format "
         "tuples, signals also in gate / scale / bias / time-scale) and "
         "IEnvGen.kr; non-trivial: at least one signal and (constructor or two "
-        "segments)")
+        "segments).  reuse shards: a start object (70% Env(...) of the "
+        "sign-agnostic class, 30% a standard constructor with random "
+        "parameters) and 3-10 steps, 62% uses (both formats, control input, "
+        "_at, EnvGen / IEnvGen definition) and 38% changes, a third of which "
+        "are re-specifications: new segment count (45% more, 40% fewer, 15% "
+        "the same), new levels and one duration per new segment always, new "
+        "curves 55% (name, number, list per new segment, shorter list, list "
+        "of the old count, nested entry), new release / loop node 40% / 20%, "
+        "assigned in a random order with uses between the assignments where "
+        "the object is consistent; non-trivial: uses of both layouts")
 ASSUMPTIONS = [
     "vf/model_env.py (EnvGen array layout, server shape numbers 0-8, -99 for "
     "absent nodes) and vf/scgf.py are the trusted base",
@@ -80,6 +98,21 @@ ASSUMPTIONS = [
     "in the definition is decided by equal values under two assignments of "
     "numbers (defaults and random) within 1e-9, documented constructor "
     "arithmetic within 1e-5 (constants are float32)",
+    "reuse shards: the public attributes levels, times, curves, release_node, "
+    "loop_node, offset of an existing Env may be assigned (the class computes "
+    "its server formats lazily from them and invalidates them on assignment); "
+    "the envelope an object stands for after a series of assignments is the "
+    "one a fresh Env(levels, times, curves, release_node, loop_node, offset) "
+    "of the assigned values stands for.  While `times` does not hold exactly "
+    "one duration per segment of `levels` (or a curves list is longer than "
+    "the segment count) the object is an inconsistent intermediate: encoding "
+    "or evaluating it may raise or give any array and is never requested; "
+    "only the assignments themselves must succeed, keep the assigned value "
+    "and leave the list they are given unchanged.  Assigned `times` are "
+    "always complete lists (wrapping of times is documented for the "
+    "constructor's parameter; a scalar or shorter list assigned later is not "
+    "in the domain), assigned `curves` may be scalar or shorter (wrapped "
+    "when the envelope is encoded)",
 ]
 MIN_COUNTERS = {
     'encodings_compared': 300, 'at_values_checked': 3000,
@@ -94,6 +127,20 @@ MIN_COUNTERS = {
     'reuse_histories': 500, 'reuse_envgen_side_checks': 300,
     'reuse_interpolation_side_checks': 200, 'reuse_at_checks': 500,
     'reuse_defs_decoded': 200,
+    'reuse_respec_final_checks': 1500, 'reuse_respec_grow': 800,
+    'reuse_respec_shrink': 400, 'reuse_respec_same-count': 200,
+    'reuse_respec_segment_count_changed': 1200,
+    'reuse_respec_of_encoded_object': 1000,
+    'reuse_respec_intermediate_uses': 800,
+    'reuse_respec_inconsistent_intermediates': 1500,
+    'reuse_respec_consistent_intermediates': 1200,
+    **{'reuse_respec_order_' + o: 150 for o in (
+        'levels-times-curves', 'levels-curves-times', 'times-levels-curves',
+        'times-curves-levels', 'curves-levels-times', 'curves-times-levels')},
+    'reuse_respec_order_levels-times': 300,
+    'reuse_respec_order_times-levels': 300,
+    'reuse_start_standard_constructor': 600,
+    'reuse_originals_rechecked': 800,
     'conc_rounds': 300, 'conc_rounds_with_overlapping_builders': 100,
     'conc_cache_rechecks': 300, 'conc_injected_yields': 100,
     'sig_cases': 1500, 'sig_defs_decoded': 1000, 'sig_defs_agreeing': 800,
@@ -144,7 +191,7 @@ def plan(tier, seed):
                        'hard_timeout': secs + 120})
     # one Env object through a history of uses and parameter changes
     # (vf/c19_reuse.py)
-    n_reuse, rparts = (6000, 2) if tier == 'quick' else (1_500_000, 3)
+    n_reuse, rparts = (9000, 3) if tier == 'quick' else (1_500_000, 3)
     for p, (f, n) in enumerate(split(n_reuse, rparts)):
         shards.append({'name': f'reuse{p}', 'mode': 'nrt', 'kind': 'reuse',
                        'first_case': f, 'n': n, 'secs': secs,
